@@ -12,12 +12,13 @@ const char* RULE =
     "1e-8..50 for the others), each checked. Oracle: |X-exp(A)|_F <= 64 eps (|L_exp(A)|_F |A|_F + |exp(A)|_F) against the closed form "
     "(normal, diagonal, nilpotent classes) or a long-double scaling-and-squaring Taylor reference, L_exp = Kronecker form of the Frechet "
     "derivative (analytic bound n e^{max Re z} for normal matrices); plus exp(A)exp(-A)=I, exp(A^T)=exp(A)^T, exp(PAP^T)=P exp(A) P^T. "
+    "enum: every placement of a 2- or 3-level zero-row-sum block in n = 2..6 levels x norms {0.137,0.4,1.5,10,40,150} x backgrounds {none, small energies on the other levels, faint dense} x {i,-1}, each on a pristine thread [exhaustive over these axes]. "
     "UTransform(V,i s) vs exp(-isV) A exp(isV) in the model, norm preservation, inversion by s -> -s, all n including 2. Non-trivial: "
     "the matrix is not diagonal (the shortcut is a separately counted class); distinct by digest of consumed bytes; classes n<k>-m<order> "
     "report the Pade band computed by the harness from exact power norms.";
 void harness_init() { quiet_gsl(); }
 
-static const char* CLS[] = {"antihermitian", "normal", "dense", "diagonal", "nilpotent", "triangular", "diag+tiny", "row-scales", "rank1-nilpotent", "sparse", "sparse"};
+static const char* CLS[] = {"antihermitian", "normal", "dense", "diagonal", "nilpotent", "triangular", "diag+tiny", "row-scales", "rank1-nilpotent", "sparse", "sparse", "structured-block"};
 
 struct ExpCase { int n; unsigned cls; Mat A; Mat exact; bool has_exact; ld cond_bound; bool has_cond; ld target; };
 static thread_local bool ci_background = false;
@@ -152,6 +153,31 @@ static ExpCase gen_case(ByteSource& s) {
   }
   return c;
 }
+// Structured family (also enumerated exhaustively, see enumerate()): a k-level mixing block with zero row sums - the Laplacian of the complete
+// graph on k of the n levels - times i or -1, scaled to a listed norm, on a background of nothing / small distinct energies on the other
+// levels / a faint dense symmetric matrix. Which placements a sampling norm estimator is blind to depends on the indices, so every
+// placement is a case of its own.
+static const double STRUCT_NORMS[] = {0.137, 0.4, 1.5, 10.0, 40.0, 150.0};
+static ExpCase gen_structured(ByteSource& s) {
+  ExpCase c; c.n = gen_dim(s); c.cls = 11; c.has_exact = false; c.has_cond = true;
+  int n = c.n, k = 2 + (int)s.choose(2); if (k > n) k = n;
+  bool used[6] = {false, false, false, false, false, false}; int cnt = 0;
+  for (int q = 0; q < k; q++) { int i = (int)s.choose(n); if (!used[i]) { used[i] = true; cnt++; } }
+  for (int i = 0; i < n && cnt < k; i++) if (!used[i]) { used[i] = true; cnt++; }
+  ld N = STRUCT_NORMS[s.choose(6)];
+  unsigned bg = s.choose(3), phase = s.choose(2);
+  Mat R(n);
+  for (int i = 0; i < n; i++) for (int j = 0; j < n; j++) if (used[i] && used[j]) R.a[i][j] = cld(i == j ? (ld)(k - 1) : -1.0L, 0);
+  ld fac = N / (2 * (ld)(k - 1));  // 1-norm of the block is 2(k-1)
+  Mat B = scale(R, cld(fac, 0));
+  if (bg == 1) { for (int i = 0; i < n; i++) if (!used[i]) B.a[i][i] = cld(1e-3L * (i + 1), 0); }
+  else if (bg == 2) { for (int i = 0; i < n; i++) for (int j = i; j < n; j++) if (!(used[i] && used[j])) { ld v = 1e-4L * (1 + (i * 7 + j * 3) % 5); B.a[i][j] = B.a[j][i] = cld(v, 0); } }
+  if (phase == 1 && N > 50) { B = scale(B, cld(50 / N, 0)); N = 50; }
+  c.target = N;
+  c.A = round_to_double(scale(B, phase == 0 ? cld(0, 1) : cld(-1, 0)));
+  c.cond_bound = (ld)n * (phase == 0 ? 1.0L : expl(1e-2L * n));  // normal matrix: n e^{max Re z}; the spectrum of -B lies below the background
+  return c;
+}
 static bool is_diagonal(const Mat& A) { for (int i = 0; i < A.n; i++) for (int j = 0; j < A.n; j++) if (i != j && A.a[i][j] != cld(0, 0)) return false; return true; }
 static int band_of(const Mat& A, int* sq) {
   Mat A2 = A * A, A4 = A2 * A2, A6 = A4 * A2, A8 = A4 * A4, A10 = A4 * A6;
@@ -199,7 +225,14 @@ static ld check_exp(const ExpCase& c, CaseInfo& ci, Mat* Xout, Mat* Eout) {
 
 // (cases run on a fresh thread: harness.h default) - the per-thread scratch and, for C07, the call history start from scratch
 void run_case(ByteSource& s, CaseInfo& ci) {
-  unsigned sub = s.choose(5);
+  unsigned sub = s.choose(6);
+  if (sub == 5) {  // the structured block family, one exponential on a pristine thread
+    ExpCase c = gen_structured(s);
+    check_exp(c, ci, nullptr, nullptr);
+    ci.nontrivial = !is_diagonal(c.A);
+    ci.label("structured-family");
+    return;
+  }
   if (sub >= 3) {  // UTransform(V, i s); sub 4: V a sparse small-integer Hermitian pattern
     int d = gen_dim(s);
     Mat W = gen_unitary(s, d);
@@ -288,7 +321,17 @@ void run_case(ByteSource& s, CaseInfo& ci) {
   ci.nontrivial = any_nondiag;
   ci.sample = samp;
 }
-void enumerate(const Emit&, const std::string&) {}
+// every placement of a 2- or 3-level block in n = 2..6 levels x the listed norms x three backgrounds x {i, -1}
+void enumerate(const Emit& emit, const std::string&) {
+  for (int n = 2; n <= 6; n++) for (int k = 2; k <= std::min(3, n); k++)
+    for (int i0 = 0; i0 < n; i0++) for (int i1 = i0 + 1; i1 < n; i1++) for (int i2 = (k == 3 ? i1 + 1 : 0); i2 < (k == 3 ? n : 1); i2++)
+      for (int nn = 0; nn < 6; nn++) for (int bg = 0; bg < 3; bg++) for (int ph = 0; ph < 2; ph++) {
+        std::vector<uint8_t> b = {5, (uint8_t)(n - 2), (uint8_t)(k - 2), (uint8_t)i0, (uint8_t)i1};
+        if (k == 3) b.push_back((uint8_t)i2);
+        b.push_back((uint8_t)nn); b.push_back((uint8_t)bg); b.push_back((uint8_t)ph);
+        emit(b);
+      }
+}
 
 // fixed findings 1fa82e3 (every non-diagonal 2x2 exponential threw), 36de8f6 (order-9 approximant without its A^8 terms), 35624de (estimator returning 0)
 void regressions() {
